@@ -1,4 +1,5 @@
 import RedisEmu.Persist
+import RedisEmu.Proofs.State
 import RedisEmu.Exec
 import Mathlib.Tactic.SplitIfs
 /-
@@ -190,5 +191,393 @@ theorem saver_spec (name : String) (db : Db) (fs : FS) :
     simp only [applyStep]
     rw [get_remove_ne _ _ _ (tmp_ne name), get_put_self]
   · intro h; simp [h]
+
+/-! ### nothing changes unnoticed: from the single mutators to every command, and to the restart -/
+
+
+/-- a database after a command is either the very same or marked dirty: nothing changes unnoticed -/
+def Tracked (db db' : Db) : Prop := db' = db ∨ db'.dirty = true
+
+theorem tracked_refl (db : Db) : Tracked db db := Or.inl rfl
+theorem tracked_put (db : Db) (k : Bytes) (v : Val) (e : Option Int) : Tracked db (db.put k v e) := Or.inr rfl
+theorem tracked_setDirty (db db' : Db) : Tracked db db'.setDirty := Or.inr rfl
+theorem tracked_del (db : Db) (k : Bytes) : Tracked db (db.del k) := by
+  unfold Db.del; split
+  · exact Or.inr rfl
+  · exact Or.inl rfl
+theorem tracked_update (db db0 : Db) (k : Bytes) (e : Entry) (v : Val) : Tracked db (db0.update k e v) :=
+  Or.inr (update_dirty db0 k e v)
+theorem tracked_upd (c : Ctx) (db db0 : Db) (k : Bytes) (e : Entry) (v : Val) : Tracked db (upd c db0 k e v) :=
+  Or.inr (upd_dirty c db0 k e v)
+
+theorem tracked_trans {a b d : Db} (h1 : Tracked a b) (h2 : Tracked b d) : Tracked a d := by
+  rcases h2 with e | e
+  · rw [e]; exact h1
+  · exact Or.inr e
+
+theorem tracked_dirtyUnlessQuirk (c : Ctx) (db db' : Db) (hq : c.q.dirtyIncomplete = false) :
+    Tracked db (dirtyUnlessQuirk c db') := by
+  unfold dirtyUnlessQuirk; rw [hq]; exact Or.inr rfl
+
+theorem setKey_tracked (c : Ctx) (db : Db) (k v : Bytes) (o : SetOpts) (a b : Bool) :
+    Tracked db (setKey c db k v o a b).1 := by
+  unfold setKey
+  repeat' (first | exact tracked_refl _ | exact tracked_put _ _ _ _ | split | dsimp only)
+
+theorem putAll_tracked (kvs : List (Bytes × Bytes)) : ∀ (db0 db : Db), Tracked db0 db → Tracked db0 (putAll db kvs) := by
+  induction kvs with
+  | nil => intro db0 db h; exact h
+  | cons p r ih =>
+    intro db0 db h
+    obtain ⟨k, v⟩ := p
+    unfold putAll
+    exact ih db0 _ (tracked_trans h (tracked_put _ _ _ _))
+
+macro "tracked" : tactic => `(tactic| (repeat' (first
+  | exact tracked_refl _
+  | exact tracked_put _ _ _ _
+  | exact tracked_setDirty _ _
+  | exact tracked_del _ _
+  | exact tracked_update _ _ _ _ _
+  | exact tracked_upd _ _ _ _ _ _
+  | exact setKey_tracked _ _ _ _ _ _ _
+  | exact putAll_tracked _ _ _ (tracked_refl _)
+  | (apply tracked_dirtyUnlessQuirk; assumption)
+  | exact Or.inr rfl
+  | split
+  | dsimp only [R.ok])))
+
+section
+variable (c : Ctx) (db : Db) (k k2 v f m : Bytes) (i j : Int) (o : SetOpts) (b b2 : Bool)
+  (ks : List Bytes) (kvs : List (Bytes × Bytes)) (oi oj ok' : Option Int) (n : Nat)
+  (hq : c.q.dirtyIncomplete = false) (hu : c.q.unlinkKeepsObject = false)
+include hq hu
+
+theorem set_tracked : Tracked db (cmdSet c db k v o b).db := by unfold cmdSet; tracked
+theorem append_tracked : Tracked db (cmdAppend c db k v).db := by
+  unfold cmdAppend
+  have h := setKey_tracked c db k v { get := true } true (!c.q.appendDropsTtl)
+  split
+  rename_i heq
+  rw [heq] at h
+  split
+  · exact tracked_refl _
+  · exact h
+theorem get_tracked : Tracked db (cmdGet c db k).db := by unfold cmdGet; tracked
+theorem getdel_tracked : Tracked db (cmdGetDel c db k).db := by unfold cmdGetDel; tracked
+theorem getex_tracked (e : Option ExpArg) : Tracked db (cmdGetEx c db k e).db := by unfold cmdGetEx; tracked
+theorem strlen_tracked : Tracked db (cmdStrlen c db k).db := by unfold cmdStrlen; tracked
+theorem getrange_tracked : Tracked db (cmdGetRange c db k i j).db := by unfold cmdGetRange; tracked
+theorem setrange_tracked : Tracked db (cmdSetRange c db k i v).db := by unfold cmdSetRange; tracked
+theorem incrby_tracked : Tracked db (cmdIncrBy c db k i).db := by unfold cmdIncrBy; tracked
+theorem decrby_tracked : Tracked db (cmdDecrBy c db k i).db := by
+  unfold cmdDecrBy
+  split
+  · exact tracked_refl _
+  · exact incrby_tracked (c := c) (db := db) (k := k) (hq := hq) (hu := hu) _
+theorem mget_tracked : Tracked db (cmdMGet c db ks).db := by unfold cmdMGet; tracked
+theorem mset_tracked : Tracked db (cmdMSet c db kvs b).db := by unfold cmdMSet; tracked
+theorem incrbyfloat_tracked : Tracked db (cmdIncrByFloat c db k v).db := by unfold cmdIncrByFloat; tracked
+theorem push_tracked : Tracked db (cmdPush c db k ks b b2).db := by unfold cmdPush; tracked
+theorem pop_tracked : Tracked db (cmdPop c db k oi b).db := by
+  have go : ∀ n multi, Tracked db (cmdPop.go c db k b n multi).db := by
+    intro n multi
+    unfold cmdPop.go
+    tracked
+  unfold cmdPop
+  split
+  · split
+    · exact tracked_refl _
+    · exact go _ _
+  · exact go _ _
+theorem llen_tracked : Tracked db (cmdLLen c db k).db := by unfold cmdLLen; tracked
+theorem lindex_tracked : Tracked db (cmdLIndex c db k i).db := by unfold cmdLIndex; tracked
+theorem lrange_tracked : Tracked db (cmdLRange c db k i j).db := by unfold cmdLRange; tracked
+theorem lset_tracked : Tracked db (cmdLSet c db k i v).db := by unfold cmdLSet; tracked
+theorem linsert_tracked : Tracked db (cmdLInsert c db k b v m).db := by unfold cmdLInsert; tracked
+theorem lrem_tracked : Tracked db (cmdLRem c db k i v).db := by unfold cmdLRem; tracked
+theorem ltrim_tracked : Tracked db (cmdLTrim c db k i j).db := by unfold cmdLTrim; tracked
+theorem lpos_tracked : Tracked db (cmdLPos c db k v oi oj ok').db := by unfold cmdLPos; tracked
+theorem hset_tracked : Tracked db (cmdHSet c db k kvs b b2).db := by unfold cmdHSet; tracked
+theorem hget_tracked : Tracked db (cmdHGet c db k f).db := by unfold cmdHGet; tracked
+theorem hmget_tracked : Tracked db (cmdHMGet c db k ks).db := by unfold cmdHMGet; tracked
+theorem hgetall_tracked : Tracked db (cmdHGetAll c db k).db := by unfold cmdHGetAll; tracked
+theorem hkeys_tracked : Tracked db (cmdHKeys c db k b).db := by unfold cmdHKeys; tracked
+theorem hlen_tracked : Tracked db (cmdHLen c db k).db := by unfold cmdHLen; tracked
+theorem hexists_tracked : Tracked db (cmdHExists c db k f).db := by unfold cmdHExists; tracked
+theorem hstrlen_tracked : Tracked db (cmdHStrlen c db k f).db := by unfold cmdHStrlen; tracked
+theorem hdel_tracked : Tracked db (cmdHDel c db k ks).db := by unfold cmdHDel; tracked
+theorem hincrby_tracked : Tracked db (cmdHIncrBy c db k f i).db := by unfold cmdHIncrBy; tracked
+theorem hincrbyfloat_tracked : Tracked db (cmdHIncrByFloat c db k f v).db := by unfold cmdHIncrByFloat; tracked
+theorem sadd_tracked : Tracked db (cmdSAdd c db k ks).db := by unfold cmdSAdd; tracked
+theorem srem_tracked : Tracked db (cmdSRem c db k ks).db := by unfold cmdSRem; tracked
+theorem scard_tracked : Tracked db (cmdSCard c db k).db := by unfold cmdSCard; tracked
+theorem sismember_tracked : Tracked db (cmdSIsMember c db k m).db := by unfold cmdSIsMember; tracked
+theorem smismember_tracked : Tracked db (cmdSMIsMember c db k ks).db := by unfold cmdSMIsMember; tracked
+theorem smembers_tracked : Tracked db (cmdSMembers c db k).db := by unfold cmdSMembers; tracked
+theorem smove_tracked : Tracked db (cmdSMove c db k k2 m).db := by unfold cmdSMove; tracked
+theorem setalgebra_tracked (op : SetOp) : Tracked db (cmdSetAlgebra c db op ks).db := by unfold cmdSetAlgebra; tracked
+theorem setalgebrastore_tracked (op : SetOp) : Tracked db (cmdSetAlgebraStore c db op k ks).db := by unfold cmdSetAlgebraStore; tracked
+theorem sintercard_tracked : Tracked db (cmdSInterCard c db i ks j).db := by unfold cmdSInterCard; tracked
+theorem del_tracked : Tracked db (cmdDel c db ks b).db := by
+  unfold cmdDel
+  simp only [hu, Bool.not_false, Bool.or_true, if_true]
+  have key : ∀ (ks : List Bytes) (acc : Db × Nat), Tracked db acc.1 →
+      Tracked db (ks.foldl (fun (acc : Db × Nat) (k : Bytes) =>
+        match acc.1.live c.now k with
+        | some _ => (acc.1.del k, acc.2 + 1)
+        | none => if b = true then (acc.1.del k, acc.2) else (acc.1, acc.2)) acc).1 := by
+    intro ks
+    induction ks with
+    | nil => intro acc h; exact h
+    | cons x r ih =>
+      intro acc h
+      simp only [List.foldl_cons]
+      apply ih
+      split
+      · exact tracked_trans h (tracked_del _ _)
+      · split
+        · exact tracked_trans h (tracked_del _ _)
+        · exact h
+  exact key ks (db, 0) (tracked_refl _)
+theorem exists_tracked : Tracked db (cmdExists c db ks).db := by unfold cmdExists; tracked
+theorem type_tracked : Tracked db (cmdType c db k).db := by unfold cmdType; tracked
+theorem rename_tracked : Tracked db (cmdRename c db k k2 b).db := by unfold cmdRename; tracked
+theorem copy_tracked : Tracked db (cmdCopy c db k k2 b).db := by unfold cmdCopy; tracked
+theorem expireat_tracked (opt : ExpireOpt) : Tracked db (cmdExpireAt c db k i opt).db := by unfold cmdExpireAt; tracked
+theorem persist_tracked : Tracked db (cmdPersist c db k).db := by unfold cmdPersist; tracked
+theorem ttl_tracked (kind : TtlKind) : Tracked db (cmdTtl c db k kind).db := by unfold cmdTtl; tracked
+theorem getbit_tracked : Tracked db (cmdGetBit c db k i).db := by unfold cmdGetBit; tracked
+theorem bitpos_tracked (st : Option Int) (en : Option (Int × Bool)) : Tracked db (cmdBitPos c db k i st en).db := by unfold cmdBitPos; tracked
+theorem bitop_tracked : Tracked db (cmdBitOp c db k k2 ks).db := by unfold cmdBitOp; tracked
+theorem bitfieldParsed_tracked (ps : List BfParsed) : Tracked db (cmdBitfieldParsed c db k ps).db := by unfold cmdBitfieldParsed; tracked
+theorem bitfield_tracked (ops : List BfOp) : Tracked db (cmdBitfield c db k ops).db := by
+  unfold cmdBitfield
+  split
+  · exact tracked_refl _
+  · exact bitfieldParsed_tracked (c := c) (db := db) (k := k) (hq := hq) (hu := hu) _
+theorem setbit_tracked : Tracked db (cmdSetBit c db k i j).db := by
+  unfold cmdSetBit
+  split
+  · exact tracked_refl _
+  · split
+    · exact tracked_refl _
+    · have h := bitfieldParsed_tracked (c := c) (db := db) (k := k) (hq := hq) (hu := hu) [{ kind := .set, signed := false, width := 1, off := i, value := j, ov := .wrap }]
+      dsimp only
+      split <;> exact h
+theorem bitcount_tracked (r : Option (Int × Int × Bool)) : Tracked db (cmdBitCount c db k r).db := by
+  unfold cmdBitCount
+  split
+  · exact tracked_refl _
+  · split_ifs <;> first
+      | exact Or.inl rfl
+      | (extract_lets; split_ifs <;> exact Or.inl rfl)
+  · exact tracked_refl _
+
+theorem lmove_tracked : Tracked db (cmdLMove c db k k2 b b2).db := by
+  unfold cmdLMove
+  tracked
+
+theorem lmpop_tracked : Tracked db (cmdLMPop c db ks b n).db := by
+  have go : ∀ ks, Tracked db (cmdLMPop.go c db b n ks).db := by
+    intro ks
+    induction ks with
+    | nil => exact tracked_refl _
+    | cons x r ih =>
+      unfold cmdLMPop.go
+      split
+      · exact tracked_refl _
+      · exact ih
+      · split
+        · exact ih
+        · dsimp only [R.ok]; exact tracked_upd _ _ _ _ _ _
+  unfold cmdLMPop
+  exact go ks
+
+theorem bpop_tracked : Tracked db (runCmd.go c b db ks).db := by
+  induction ks with
+  | nil => exact tracked_refl _
+  | cons x r ih =>
+    unfold runCmd.go
+    split
+    · exact tracked_refl _
+    · exact ih
+    · split
+      · exact ih
+      · dsimp only [R.ok]; exact tracked_upd _ _ _ _ _ _
+
+theorem sortFinish_tracked (store : Option Bytes) (out : List Value) (hint : Match) :
+    Tracked db (sortFinish db store out hint).db := by
+  unfold sortFinish
+  split
+  · exact tracked_refl _
+  · split
+    · exact tracked_del _ _
+    · exact Or.inr rfl
+
+theorem sort_tracked (by_ : Option Bytes) (limit : Option (Int × Int)) (gets : List Bytes) (store : Option Bytes) :
+    Tracked db (cmdSort c db k by_ limit gets b b2 store).db := by
+  unfold cmdSort
+  split
+  · exact tracked_refl _
+  · exact sortFinish_tracked (db := db) (hq := hq) (hu := hu) (c := c) _ _ _
+  · split
+    · exact tracked_refl _
+    · exact sortFinish_tracked (db := db) (hq := hq) (hu := hu) (c := c) _ _ _
+end
+
+/-- commands that work on the session, the database table or nothing at all (everything else goes
+    through `onDb` on the connection's database) -/
+def Cmd.isSession : Cmd → Bool
+  | .select _ | .flushdb | .flushall | .multi | .exec | .discard | .watch _ | .unwatch
+  | .ping _ | .echo _ | .quit | .hello _ | .clientId | .clientGetname | .clientSetname _
+  | .clientInfo | .clientList | .dbsize | .opaque _ => true
+  | _ => false
+
+theorem onDb_tracked (s : State) (ref : Nat) (f : Db → R) (h : Tracked (s.getDb ref) (f (s.getDb ref)).db) :
+    Tracked (s.getDb ref) ((onDb s ref f).st.getDb ref) := by
+  unfold onDb
+  rw [getDb_setDb_self]
+  exact h
+
+/-- **Nothing changes unnoticed.** Every data command, whatever its arguments and whatever the database
+    holds, leaves the connection's database either exactly as it was or marked dirty — so a save that
+    writes the dirty databases (`saver_spec`) writes every database that differs from its snapshot. -/
+theorem runCmd_tracked (c : Ctx) (s : State) (conn ref : Nat) (m : Bool) (cmd : Cmd)
+    (hq : c.q.dirtyIncomplete = false) (hu : c.q.unlinkKeepsObject = false) (hs : cmd.isSession = false) :
+    Tracked (s.getDb ref) ((runCmd c s conn ref m cmd).st.getDb ref) := by
+  cases cmd <;> (try (simp [Cmd.isSession] at hs; done))
+  case copy a b rep dbOpt =>
+    simp only [runCmd]
+    split
+    · exact tracked_refl _
+    · exact onDb_tracked s ref _ (copy_tracked (c := c) (hq := hq) (hu := hu) _ _ _ _)
+  case lmpop nk ks l cnt =>
+    simp only [runCmd]
+    split
+    · exact tracked_refl _
+    · split
+      · exact tracked_refl _
+      · exact onDb_tracked s ref _ (lmpop_tracked (c := c) (hq := hq) (hu := hu) _ _ _ _)
+  case set a0 a1 a2 a3 => simp only [runCmd]; exact onDb_tracked s ref _ (set_tracked (c := c) (hq := hq) (hu := hu) ..)
+  case append a0 a1 => simp only [runCmd]; exact onDb_tracked s ref _ (append_tracked (c := c) (hq := hq) (hu := hu) ..)
+  case get a0 => simp only [runCmd]; exact onDb_tracked s ref _ (get_tracked (c := c) (hq := hq) (hu := hu) ..)
+  case getdel a0 => simp only [runCmd]; exact onDb_tracked s ref _ (getdel_tracked (c := c) (hq := hq) (hu := hu) ..)
+  case getex a0 a1 => simp only [runCmd]; exact onDb_tracked s ref _ (getex_tracked (c := c) (hq := hq) (hu := hu) ..)
+  case strlen a0 => simp only [runCmd]; exact onDb_tracked s ref _ (strlen_tracked (c := c) (hq := hq) (hu := hu) ..)
+  case getrange a0 a1 a2 => simp only [runCmd]; exact onDb_tracked s ref _ (getrange_tracked (c := c) (hq := hq) (hu := hu) ..)
+  case setrange a0 a1 a2 => simp only [runCmd]; exact onDb_tracked s ref _ (setrange_tracked (c := c) (hq := hq) (hu := hu) ..)
+  case incrby a0 a1 => simp only [runCmd]; exact onDb_tracked s ref _ (incrby_tracked (c := c) (hq := hq) (hu := hu) ..)
+  case decrby a0 a1 => simp only [runCmd]; exact onDb_tracked s ref _ (decrby_tracked (c := c) (hq := hq) (hu := hu) ..)
+  case incrbyfloat a0 a1 => simp only [runCmd]; exact onDb_tracked s ref _ (incrbyfloat_tracked (c := c) (hq := hq) (hu := hu) ..)
+  case mget a0 => simp only [runCmd]; exact onDb_tracked s ref _ (mget_tracked (c := c) (hq := hq) (hu := hu) ..)
+  case mset a0 a1 => simp only [runCmd]; exact onDb_tracked s ref _ (mset_tracked (c := c) (hq := hq) (hu := hu) ..)
+  case push a0 a1 a2 a3 => simp only [runCmd]; exact onDb_tracked s ref _ (push_tracked (c := c) (hq := hq) (hu := hu) ..)
+  case pop a0 a1 a2 => simp only [runCmd]; exact onDb_tracked s ref _ (pop_tracked (c := c) (hq := hq) (hu := hu) ..)
+  case llen a0 => simp only [runCmd]; exact onDb_tracked s ref _ (llen_tracked (c := c) (hq := hq) (hu := hu) ..)
+  case lindex a0 a1 => simp only [runCmd]; exact onDb_tracked s ref _ (lindex_tracked (c := c) (hq := hq) (hu := hu) ..)
+  case lrange a0 a1 a2 => simp only [runCmd]; exact onDb_tracked s ref _ (lrange_tracked (c := c) (hq := hq) (hu := hu) ..)
+  case lset a0 a1 a2 => simp only [runCmd]; exact onDb_tracked s ref _ (lset_tracked (c := c) (hq := hq) (hu := hu) ..)
+  case linsert a0 a1 a2 a3 => simp only [runCmd]; exact onDb_tracked s ref _ (linsert_tracked (c := c) (hq := hq) (hu := hu) ..)
+  case lrem a0 a1 a2 => simp only [runCmd]; exact onDb_tracked s ref _ (lrem_tracked (c := c) (hq := hq) (hu := hu) ..)
+  case ltrim a0 a1 a2 => simp only [runCmd]; exact onDb_tracked s ref _ (ltrim_tracked (c := c) (hq := hq) (hu := hu) ..)
+  case lpos a0 a1 a2 a3 a4 => simp only [runCmd]; exact onDb_tracked s ref _ (lpos_tracked (c := c) (hq := hq) (hu := hu) ..)
+  case lmove a0 a1 a2 a3 => simp only [runCmd]; exact onDb_tracked s ref _ (lmove_tracked (c := c) (hq := hq) (hu := hu) ..)
+  case hset a0 a1 a2 a3 => simp only [runCmd]; exact onDb_tracked s ref _ (hset_tracked (c := c) (hq := hq) (hu := hu) ..)
+  case hget a0 a1 => simp only [runCmd]; exact onDb_tracked s ref _ (hget_tracked (c := c) (hq := hq) (hu := hu) ..)
+  case hmget a0 a1 => simp only [runCmd]; exact onDb_tracked s ref _ (hmget_tracked (c := c) (hq := hq) (hu := hu) ..)
+  case hgetall a0 => simp only [runCmd]; exact onDb_tracked s ref _ (hgetall_tracked (c := c) (hq := hq) (hu := hu) ..)
+  case hkeys a0 a1 => simp only [runCmd]; exact onDb_tracked s ref _ (hkeys_tracked (c := c) (hq := hq) (hu := hu) ..)
+  case hlen a0 => simp only [runCmd]; exact onDb_tracked s ref _ (hlen_tracked (c := c) (hq := hq) (hu := hu) ..)
+  case hexists a0 a1 => simp only [runCmd]; exact onDb_tracked s ref _ (hexists_tracked (c := c) (hq := hq) (hu := hu) ..)
+  case hstrlen a0 a1 => simp only [runCmd]; exact onDb_tracked s ref _ (hstrlen_tracked (c := c) (hq := hq) (hu := hu) ..)
+  case hdel a0 a1 => simp only [runCmd]; exact onDb_tracked s ref _ (hdel_tracked (c := c) (hq := hq) (hu := hu) ..)
+  case hincrby a0 a1 a2 => simp only [runCmd]; exact onDb_tracked s ref _ (hincrby_tracked (c := c) (hq := hq) (hu := hu) ..)
+  case hincrbyfloat a0 a1 a2 => simp only [runCmd]; exact onDb_tracked s ref _ (hincrbyfloat_tracked (c := c) (hq := hq) (hu := hu) ..)
+  case sadd a0 a1 => simp only [runCmd]; exact onDb_tracked s ref _ (sadd_tracked (c := c) (hq := hq) (hu := hu) ..)
+  case srem a0 a1 => simp only [runCmd]; exact onDb_tracked s ref _ (srem_tracked (c := c) (hq := hq) (hu := hu) ..)
+  case scard a0 => simp only [runCmd]; exact onDb_tracked s ref _ (scard_tracked (c := c) (hq := hq) (hu := hu) ..)
+  case sismember a0 a1 => simp only [runCmd]; exact onDb_tracked s ref _ (sismember_tracked (c := c) (hq := hq) (hu := hu) ..)
+  case smismember a0 a1 => simp only [runCmd]; exact onDb_tracked s ref _ (smismember_tracked (c := c) (hq := hq) (hu := hu) ..)
+  case smembers a0 => simp only [runCmd]; exact onDb_tracked s ref _ (smembers_tracked (c := c) (hq := hq) (hu := hu) ..)
+  case smove a0 a1 a2 => simp only [runCmd]; exact onDb_tracked s ref _ (smove_tracked (c := c) (hq := hq) (hu := hu) ..)
+  case salg a0 a1 => simp only [runCmd]; exact onDb_tracked s ref _ (setalgebra_tracked (c := c) (hq := hq) (hu := hu) ..)
+  case salgStore a0 a1 a2 => simp only [runCmd]; exact onDb_tracked s ref _ (setalgebrastore_tracked (c := c) (hq := hq) (hu := hu) ..)
+  case sintercard a0 a1 a2 => simp only [runCmd]; exact onDb_tracked s ref _ (sintercard_tracked (c := c) (hq := hq) (hu := hu) ..)
+  case del a0 a1 => simp only [runCmd]; exact onDb_tracked s ref _ (del_tracked (c := c) (hq := hq) (hu := hu) ..)
+  case exists_ a0 => simp only [runCmd]; exact onDb_tracked s ref _ (exists_tracked (c := c) (hq := hq) (hu := hu) ..)
+  case touch a0 => simp only [runCmd]; exact onDb_tracked s ref _ (exists_tracked (c := c) (hq := hq) (hu := hu) ..)
+  case type_ a0 => simp only [runCmd]; exact onDb_tracked s ref _ (type_tracked (c := c) (hq := hq) (hu := hu) ..)
+  case rename a0 a1 a2 => simp only [runCmd]; exact onDb_tracked s ref _ (rename_tracked (c := c) (hq := hq) (hu := hu) ..)
+  case sort a0 a1 a2 a3 a4 a5 a6 => simp only [runCmd]; exact onDb_tracked s ref _ (sort_tracked (c := c) (hq := hq) (hu := hu) ..)
+  case persist a0 => simp only [runCmd]; exact onDb_tracked s ref _ (persist_tracked (c := c) (hq := hq) (hu := hu) ..)
+  case ttl a0 a1 => simp only [runCmd]; exact onDb_tracked s ref _ (ttl_tracked (c := c) (hq := hq) (hu := hu) ..)
+  case getbit a0 a1 => simp only [runCmd]; exact onDb_tracked s ref _ (getbit_tracked (c := c) (hq := hq) (hu := hu) ..)
+  case setbit a0 a1 a2 => simp only [runCmd]; exact onDb_tracked s ref _ (setbit_tracked (c := c) (hq := hq) (hu := hu) ..)
+  case bitcount a0 a1 => simp only [runCmd]; exact onDb_tracked s ref _ (bitcount_tracked (c := c) (hq := hq) (hu := hu) ..)
+  case bitpos a0 a1 a2 a3 => simp only [runCmd]; exact onDb_tracked s ref _ (bitpos_tracked (c := c) (hq := hq) (hu := hu) ..)
+  case bitop a0 a1 a2 => simp only [runCmd]; exact onDb_tracked s ref _ (bitop_tracked (c := c) (hq := hq) (hu := hu) ..)
+  case bitfield a0 a1 a2 => simp only [runCmd]; exact onDb_tracked s ref _ (bitfield_tracked (c := c) (hq := hq) (hu := hu) ..)
+  case expire k n u a o => simp only [runCmd]; exact onDb_tracked s ref _ (expireat_tracked (c := c) (hq := hq) (hu := hu) ..)
+  case bpop ks l => simp only [runCmd]; exact onDb_tracked s ref _ (bpop_tracked (c := c) (hq := hq) (hu := hu) ..)
+  all_goals
+    simp only [runCmd]
+    apply onDb_tracked
+    tracked
+
+/-- what ties a running database to its snapshot file: it is marked dirty, or it is what the file holds -/
+def InSync (db : Db) (fs : FS) (name : String) : Prop :=
+  db.dirty = true ∨ fs.load name = .ok db.snapshot
+
+theorem inSync_after_save (name : String) (db : Db) (fs : FS) (h : InSync db fs name) :
+    (saveIfDirty name db fs).2.load name = .ok db.snapshot ∧
+    (saveIfDirty name db fs).1.snapshot = db.snapshot ∧ (saveIfDirty name db fs).1.dirty = false := by
+  obtain ⟨h1, h2, h3⟩ := saver_spec name db fs
+  refine ⟨?_, ?_, h1⟩
+  · cases hd : db.dirty with
+    | true => exact h2 hd
+    | false =>
+      rw [h3 hd]
+      rcases h with h | h
+      · rw [hd] at h; cases h
+      · exact h
+  · unfold saveIfDirty; split_ifs <;> rfl
+
+theorem inSync_step (db db' : Db) (fs : FS) (name : String) (h : InSync db fs name) (ht : Tracked db db') :
+    InSync db' fs name := by
+  rcases ht with e | e
+  · rw [e]; exact h
+  · exact Or.inl e
+
+/-- a run of data commands on one connection's database -/
+def runData (c : Ctx) (conn ref : Nat) (m : Bool) : State → List Cmd → State
+  | s, [] => s
+  | s, cmd :: r => runData c conn ref m (runCmd c s conn ref m cmd).st r
+
+/-- **Restart restores the acknowledged state.** Start from a database that is in step with its
+    snapshot file (freshly loaded or just saved); run any sequence of data commands; save; restart:
+    the loaded database holds exactly the keys, values, deadlines and versions the running one held —
+    whichever commands ran, including those that change values in place, and whether or not the
+    save wrote anything. -/
+theorem restart_restores (c : Ctx) (conn ref : Nat) (m : Bool) (name : String) (fs : FS)
+    (hq : c.q.dirtyIncomplete = false) (hu : c.q.unlinkKeepsObject = false)
+    (cmds : List Cmd) (hd : ∀ cmd ∈ cmds, cmd.isSession = false) :
+    ∀ (s : State), InSync (s.getDb ref) fs name →
+      let db := (runData c conn ref m s cmds).getDb ref
+      ∃ snap, (saveIfDirty name db fs).2.load name = .ok snap ∧ snap.load.keys = db.keys ∧ snap.load.nextId = db.nextId := by
+  induction cmds with
+  | nil =>
+    intro s h
+    simp only [runData]
+    exact ⟨_, (inSync_after_save name _ fs h).1, rfl, rfl⟩
+  | cons cmd r ih =>
+    intro s h
+    simp only [runData]
+    apply ih (fun x hx => hd x (List.mem_cons_of_mem _ hx))
+    exact inSync_step _ _ fs name h (runCmd_tracked c s conn ref m cmd hq hu (hd cmd List.mem_cons_self))
+
+
+/-- the hypotheses of `restart_restores` are satisfiable: a database that was just changed -/
+example : InSync { keys := [([107], { val := .str [118] })], nextId := 1, dirty := true } [] "snap.db0" := Or.inl rfl
 
 end RedisEmu
